@@ -480,6 +480,11 @@ func (lb *LoadBalancer) AddBackend(backendCfg config.BackendConfig) error {
 	if err != nil {
 		return err
 	}
+	// The same rules as for an address in the configuration file: "localhost:8081" parses as a
+	// URL, but every request sent to such a backend would end in a 502
+	if err := config.ValidateBackendAddress(backendCfg.Address); err != nil {
+		return fmt.Errorf("backend %s: %w", backendCfg.Name, err)
+	}
 
 	// Create a reverse proxy for this backend with optimized transport
 	proxy := httputil.NewSingleHostReverseProxy(backendURL)
